@@ -712,6 +712,45 @@ Section TopoProofs.
       apply edges_of_orders_in in Hab. destruct Hab as [o [Ho Hab]].
       apply (subseq_idx o t (Hs o Ho) Hnd). exact Hab.
   Qed.
+
+  (* a single duplicate-free declaration order is reproduced as is *)
+  Lemma subseq_length o t : subseq o t -> length o <= length t.
+  Proof. induction 1; simpl; lia. Qed.
+
+  Lemma subseq_full o t : subseq o t -> length t <= length o -> o = t.
+  Proof.
+    induction 1 as [l | o x l H IH | x o l H IH]; simpl; intros Hl.
+    - destruct l; [reflexivity | simpl in Hl; lia].
+    - apply subseq_length in H. lia.
+    - f_equal. apply IH. lia.
+  Qed.
+
+  Lemma subseq_refl (o : list L) : subseq o o.
+  Proof. induction o; constructor; assumption. Qed.
+
+  Theorem merge_single_chain o : NoDup o -> merge_orders cmp [o] = Some o.
+  Proof.
+    intros Hnd.
+    assert (Hcons : consistent [o]).
+    { apply consistent_iff_common_supersequence. exists o. split; [exact Hnd|].
+      intros o' [<- | []]. apply subseq_refl. }
+    destruct (merge_orders_respects_each_order [o] Hcons) as [t [E [Hndt [Hin Hsub]]]].
+    rewrite E. f_equal. symmetry. apply subseq_full; [apply Hsub; left; reflexivity|].
+    apply NoDup_incl_length; [exact Hndt|]. intros x Hx. apply Hin in Hx.
+    destruct Hx as [o' [[<- | []] Hx]]. exact Hx.
+  Qed.
+
+  Lemma first_occ_nodup l : NoDup (first_occ cmp l).
+  Proof.
+    unfold first_occ. apply (Permutation_NoDup (Permutation_rev _)). apply dedup_nodup.
+  Qed.
+
+  Lemma first_occ_in l x : In x (first_occ cmp l) <-> In x l.
+  Proof. unfold first_occ. rewrite <- in_rev, dedup_in, <- in_rev. reflexivity. Qed.
+
+  (* implicit unification lists the labels in order of first occurrence *)
+  Theorem implicit_orders_spec os : implicit_orders cmp os = Some (first_occ cmp (concat os)).
+  Proof. unfold implicit_orders. apply merge_single_chain. apply first_occ_nodup. Qed.
 End TopoProofs.
 
 (* the concrete label order of compareNodeByName is a total order *)
